@@ -1,4 +1,4 @@
-#[derive(Debug, PartialEq, Eq, Hash, Clone)]
+#[derive(Debug, PartialEq, Eq, PartialOrd, Ord, Hash, Clone)]
 pub struct InkListItem {
     origin_name: Option<String>,
     item_name: String,
